@@ -179,7 +179,7 @@ where
 
         let (buf_tx, buf_rx) = bounded(insert_buffer_size);
         let (stop_tx, stop_rx) = stop_channel();
-        let (clear_tx, clear_rx) = unbounded();
+        let (clear_tx, clear_rx) = unbounded::<WaitGroup>();
 
         let hasher = self.inner.hasher.unwrap();
         let expiration_map = ExpirationMap::with_hasher(hasher.clone());
@@ -293,7 +293,7 @@ impl<V> Item<V> {
 pub(crate) struct CacheProcessor<V, U, CB, S> {
     pub(crate) insert_buf_rx: Receiver<Item<V>>,
     pub(crate) stop_rx: Receiver<()>,
-    pub(crate) clear_rx: UnboundedReceiver<()>,
+    pub(crate) clear_rx: UnboundedReceiver<WaitGroup>,
     pub(crate) metrics: Arc<Metrics>,
     pub(crate) store: Arc<ShardedMap<V, U, S, S>>,
     pub(crate) policy: Arc<LFUPolicy<S>>,
@@ -355,7 +355,7 @@ pub struct Cache<
 
     pub(crate) stop_tx: Sender<()>,
 
-    pub(crate) clear_tx: UnboundedSender<()>,
+    pub(crate) clear_tx: UnboundedSender<WaitGroup>,
 
     pub(crate) callback: Arc<CB>,
 
@@ -456,20 +456,21 @@ where
             return Ok(());
         }
 
-        // stop the process item thread.
-        self.clear_tx.send(()).map_err(|e| {
+        // Hand the clear over to the processor thread: it drains the insert buffer and clears
+        // policy, store and metrics in order with the items it handles. Clearing them from
+        // here would race with the items the processor is still applying.
+        let wg = WaitGroup::new();
+        self.clear_tx.send(wg.add(1)).map_err(|e| {
             CacheError::SendError(format!("fail to send clear signal to working thread {}", e))
         })?;
 
         #[cfg(transparencies_stretto_verif)]
         crate::verif::sched::point("clear:after_signal");
-        self.policy.clear();
-        #[cfg(transparencies_stretto_verif)]
-        crate::verif::sched::point("clear:after_policy_clear");
-        self.store.clear();
-        #[cfg(transparencies_stretto_verif)]
-        crate::verif::sched::point("clear:after_store_clear");
-        self.metrics.clear();
+        // Closed in the meantime: the processor releases every pending signal on its way out,
+        // but one that arrives after that would never be released.
+        if !self.is_closed.load(Ordering::SeqCst) {
+            wg.wait();
+        }
 
         Ok(())
     }
@@ -665,7 +666,7 @@ where
         policy: Arc<LFUPolicy<S>>,
         insert_buf_rx: Receiver<Item<V>>,
         stop_rx: Receiver<()>,
-        clear_rx: UnboundedReceiver<()>,
+        clear_rx: UnboundedReceiver<WaitGroup>,
         metrics: Arc<Metrics>,
         callback: Arc<CB>,
     ) -> Self {
@@ -707,7 +708,7 @@ where
                     #[cfg(transparencies_stretto_verif)]
                     crate::verif::counters::inc(&crate::verif::counters::ITEMS_HANDLED);
                 },
-                recv(self.clear_rx) -> _ => {
+                recv(self.clear_rx) -> wg => {
                     #[cfg(transparencies_stretto_verif)]
                     crate::verif::sched::point("proc:clear_arm");
                     if let Err(e) = self.handle_clear_event() {
@@ -717,6 +718,9 @@ where
                     }
                     #[cfg(transparencies_stretto_verif)]
                     crate::verif::counters::inc(&crate::verif::counters::CLEARS_DONE);
+                    if let Ok(wg) = wg {
+                        wg.done();
+                    }
                 },
                 recv(ticker) -> msg => {
                     #[cfg(transparencies_stretto_verif)]
@@ -735,6 +739,9 @@ where
                     // Nobody is going to serve the insert buffer any more: release whoever
                     // waits on a marker in it.
                     let _ = CacheCleaner::new(&mut self).clean();
+                    while let Ok(wg) = self.clear_rx.try_recv() {
+                        wg.done();
+                    }
                     return Ok(());
                 },
             }
@@ -743,7 +750,11 @@ where
 
     #[inline]
     pub(crate) fn handle_clear_event(&mut self) -> Result<(), CacheError> {
-        CacheCleaner::new(self).clean()
+        let res = CacheCleaner::new(self).clean();
+        self.policy.clear();
+        self.store.clear();
+        self.metrics.clear();
+        res
     }
 
     #[inline]
